@@ -61,3 +61,35 @@ if __name__ == "__main__":
             old, new = part.split("\n=====\n")
             edits.append({"file": fl, "old": old, "new": new.rstrip("\n") if not old.endswith("\n") else new})
         write(prop, name, expect, edits, note)
+
+def from_patch(patch, prop, name, expect, note=""):
+    """builds the variant that applies a unified diff (a seeded change) as overlay edits"""
+    diff = open(patch).read()
+    edits, f = [], None
+    cur_old, cur_new = [], []
+    def flush():
+        nonlocal cur_old, cur_new
+        if f and (cur_old or cur_new) and cur_old != cur_new:
+            edits.append({"file": f, "old": "".join(cur_old), "new": "".join(cur_new)})
+        cur_old, cur_new = [], []
+    for line in diff.splitlines(keepends=True):
+        if line.startswith("+++ b/"):
+            flush(); f = line[6:].strip()
+        elif line.startswith("@@"):
+            flush()
+        elif line.startswith("---") or line.startswith("diff ") or line.startswith("index ") or line.startswith("\\"):
+            continue
+        elif line.startswith("+"):
+            cur_new.append(line[1:])
+        elif line.startswith("-"):
+            cur_old.append(line[1:])
+        elif line.startswith(" "):
+            cur_old.append(line[1:]); cur_new.append(line[1:])
+    flush()
+    write(prop, name, expect, edits, note)
+
+if __name__ == "__main__" and sys.argv[1] == "seeded":
+    # mm.py seeded <seeded-name> <expect_rule>
+    sd = os.path.join(ROOT, "seeded", sys.argv[2])
+    meta = json.load(open(os.path.join(sd, "meta.json")))
+    from_patch(os.path.join(sd, "patch.diff"), meta["property"], "seeded_" + sys.argv[2], sys.argv[3], "seeded change " + sys.argv[2] + ": needs " + meta["needs_to_manifest"])
